@@ -293,6 +293,12 @@ pub fn run(ctx: &Ctx) -> Outcome {
                         *v = format!("r{}-{}", round, rng.below(1000));
                         *timestamp = ts(rng.range(-5, 50));
                     }
+                    if rng.chance(1, 6) {
+                        // status changes: a task that becomes pending / recurring also enters
+                        // the working set as part of the same commit
+                        let t = 1 + rng.below(2) as u128;
+                        op = Operation::Update { uuid: u(t), property: "status".into(), old_value: None, value: Some((*rng.pick(&["pending", "completed", "recurring", "deleted", "pending"])).to_string()), timestamp: ts(rng.range(-5, 50)) };
+                    }
                     batch.push(op);
                 }
                 let before = r.ctl.last().tasks;
@@ -321,7 +327,7 @@ pub fn run(ctx: &Ctx) -> Outcome {
     }
     Outcome {
         level: "exploration",
-        rule: "every batch of <=3 operations over {create, delete, set/remove of 2 properties, undo point} x 2 tasks on 4 prior states (empty, one task, two tasks with undo point, synced base + pending) on in-memory storage (SQLite: sampled in quick, full in thorough) + seeded random batches up to 30 operations with interleaved syncs; error injected at every storage call of a commit (every 5th case in quick); non-trivial = batch contains an operation invalid in its state or >=2 create/delete operations; distinct by (prior state, batch)".into(),
+        rule: "every batch of <=3 operations over {create, delete, set/remove of 2 properties, undo point} x 2 tasks on 4 prior states (empty, one task, two tasks with undo point, synced base + pending) on in-memory storage (SQLite: sampled in quick, full in thorough) + seeded random batches up to 30 operations (incl. status changes that move tasks into the working set) with interleaved syncs; error injected at every storage call of a commit (every 5th case in quick); non-trivial = batch contains an operation invalid in its state or >=2 create/delete operations; distinct by (prior state, batch)".into(),
         exhaustive: None,
         acc,
         assumptions: vec![
